@@ -201,12 +201,19 @@ class MeiParser(object):
         else:  # the informatio is encoded in a parent scoredef
             found_ancestor_with_metrical_info = False
             for anc in staffdef_el.iterancestors(tag=self._ns_name("scoreDef")):
+                anc_metersig_el = anc.find(self._ns_name("meterSig"))
+                if anc_metersig_el is not None:
+                    anc = anc_metersig_el
+                    count_attr, unit_attr = "count", "unit"
+                    found_ancestor_with_metrical_info = True
+                    break
                 if anc.get("meter.count") is not None:
+                    count_attr, unit_attr = "meter.count", "meter.unit"
                     found_ancestor_with_metrical_info = True
                     break
             if found_ancestor_with_metrical_info:
-                numerator = int(anc.attrib["meter.count"])
-                denominator = int(anc.attrib["meter.unit"])
+                numerator = int(anc.attrib[count_attr])
+                denominator = int(anc.attrib[unit_attr])
             else:
                 raise Exception(
                     f"The time signature is not encoded in {staffdef_el.get(self._ns_name('id'))} or in any ancestor scoreDef"
@@ -243,14 +250,21 @@ class MeiParser(object):
         else:  # the information is encoded in a parent scoredef
             found_ancestor_with_key_info = False
             for anc in staffdef_el.iterancestors(tag=self._ns_name("scoreDef")):
+                anc_keysig_el = anc.find(self._ns_name("keySig"))
+                if anc_keysig_el is not None:
+                    anc = anc_keysig_el
+                    sig_attr, mode_attr = "sig", "mode"
+                    found_ancestor_with_key_info = True
+                    break
                 if anc.get("key.sig") is not None:
+                    sig_attr, mode_attr = "key.sig", "key.mode"
                     found_ancestor_with_key_info = True
                     break
             if found_ancestor_with_key_info:
-                sig = anc.attrib["key.sig"]
+                sig = anc.attrib[sig_attr]
                 # now extract partitura keysig parameters
                 fifths = self._mei_sig_to_fifths(sig)
-                mode = anc.get("key.mode")
+                mode = anc.get(mode_attr)
             else:
                 warnings.warn(
                     f"The key signature is not encoded in {staffdef_el.get(self._ns_name('id'))} or in any ancestor scoreDef."
